@@ -7,6 +7,6 @@ Ats <- AtsSmall
 NVals = 3
 MaxAttrs = 2
 NTexts = 2
-SvgPrefixChildren = FALSE
+SvgPrefixChildren = TRUE
 INVARIANTS Balanced Nesting Fits EmitDone
 CHECK_DEADLOCK FALSE
